@@ -357,19 +357,20 @@ Proof.
   { cbn. exists s. rewrite app_nil_r. auto. }
   remember (b0 :: buf') as buf eqn:Eb. rewrite write_all_loop_unfold by (subst buf; discriminate).
   destruct Hok as [Hw Hfl].
+  assert (Hnb : (1 <= length buf)%nat) by (subst buf; cbn; lia). clear Eb b0 buf'.
   unfold io_write, wr. destruct (w_script (wtr s)) as [|a sc] eqn:Esc.
-  - rewrite skipn_all. destruct (length buf) as [|lb] eqn:Elb; [subst buf; discriminate Elb|].
+  - rewrite skipn_all. destruct (length buf) as [|lb] eqn:Elb; [lia|].
     eexists. split; [destruct f; reflexivity|]. cbn. repeat split; try assumption.
   - inversion Hw as [|? ? Ha Hsc]; subst. destruct a as [k|e]; [|contradiction]. cbn in Ha.
-    set (m := Nat.min k (length buf)). assert (Hm : (1 <= m <= length buf)%nat) by (subst buf m; cbn; lia).
+    set (m := Nat.min k (length buf)). assert (Hm : (1 <= m <= length buf)%nat) by (subst m; lia).
     destruct m as [|m'] eqn:Em; [lia|].
     set (s1 := {| rdr := rdr s; wtr := {| w_out := w_out (wtr s) ++ firstn (S m') buf; w_script := sc;
                    w_fscript := w_fscript (wtr s) |}; log := EvWrite buf (S m') :: log s |}).
     destruct (IH (skipn (S m') buf) s1) as (s' & E & Ho & Hok' & Hr).
     + split; assumption.
     + cbn in Hf |- *. lia.
-    + exists s'. fold s1. rewrite E. repeat split; try assumption.
-      rewrite Ho. cbn. rewrite <- app_assoc. f_equal. apply firstn_skipn.
+    + exists s'. fold s1. rewrite E. split; [reflexivity|]. split; [|split; assumption].
+      rewrite Ho. unfold s1. cbn [wtr w_out]. rewrite <- app_assoc. f_equal. apply firstn_skipn.
 Qed.
 
 Lemma write_all_ok buf s : writer_ok (wtr s) ->
